@@ -1382,3 +1382,148 @@ Proof.
     replace (((1 + u64) * P - 1) * (S0 + T)) with (((1 + u64) * P - 1) * S0 + ((1 + u64) * P - 1) * T) by ring.
     lra.
 Qed.
+
+Lemma rsq_about_shift : forall c xs, rsq_about c xs = rssq xs + INR (length xs) * ((c - rmean xs) * (c - rmean xs)).
+Proof.
+  intros c xs. unfold rsq_about. rewrite rsum_sq_shift. rewrite <- rss_eq_rssq. unfold rss.
+  destruct xs as [|y ys]; [cbn; lra|].
+  assert (HK : 0 < INR (length (y :: ys))) by (apply lt_0_INR; cbn; lia).
+  assert (E : rsum (y :: ys) = INR (length (y :: ys)) * rmean (y :: ys)) by (unfold rmean; field; lra).
+  rewrite E. ring.
+Qed.
+
+Lemma rssq_nonneg : forall xs, 0 <= rssq xs.
+Proof. intros xs. unfold rssq. fold (rsq_about (rmean xs) xs). apply rsq_about_nonneg. Qed.
+
+(* numeric facts for counts up to 2^26 *)
+Lemma small_count_facts : forall n : nat, (Z.of_nat n + 4 <= 2 ^ 26)%Z ->
+  (1 + u64) ^ (n + 3) - 1 <= (INR n + 4) * u64 /\ (INR n + 4) * u64 <= / 1000 /\ (1 + u64) ^ n <= 2.
+Proof.
+  intros n Hn. pose proof u64_pos as Hu.
+  assert (Hk : INR (n + 3) * u64 <= / IZR (2 ^ 27)).
+  { rewrite INR_IZR_INZ, u64_val.
+    assert (IZR (Z.of_nat (n + 3)) <= IZR (2 ^ 26)) by (apply IZR_le; lia).
+    replace (/ IZR (2 ^ 27)) with (IZR (2 ^ 26) * / IZR (2 ^ 53)).
+    - apply Rmult_le_compat_r; [|assumption]. apply Rlt_le, Rinv_0_lt_compat, IZR_lt. reflexivity.
+    - replace (IZR (2 ^ 53)) with (IZR (2 ^ 26) * IZR (2 ^ 27)) by (rewrite <- mult_IZR; reflexivity).
+      field. split; apply not_0_IZR; discriminate. }
+  assert (H27 : / IZR (2 ^ 27) <= / 1000000) by (apply Rinv_le_contravar; [lra|apply IZR_le; lia]).
+  pose proof (pow1u_le (n + 3) ltac:(lra)) as Hp.
+  set (a := INR (n + 3) * u64) in *.
+  assert (Ha0 : 0 <= a) by (unfold a; apply Rmult_le_pos; [apply pos_INR|lra]).
+  assert (Haa : a * a <= u64).
+  { assert (a * INR (n + 3) <= 1).
+    { unfold a. rewrite INR_IZR_INZ, u64_val.
+      assert (H26 : IZR (Z.of_nat (n + 3)) <= IZR (2 ^ 26)) by (apply IZR_le; lia).
+      assert (0 <= IZR (Z.of_nat (n + 3))) by (apply IZR_le; lia).
+      replace (IZR (Z.of_nat (n + 3)) * / IZR (2 ^ 53) * IZR (Z.of_nat (n + 3))) with (IZR (Z.of_nat (n + 3)) * IZR (Z.of_nat (n + 3)) * / IZR (2 ^ 53)) by ring.
+      apply Rmult_le_reg_r with (IZR (2 ^ 53)); [apply IZR_lt; reflexivity|].
+      rewrite Rmult_assoc, Rinv_l by (apply not_0_IZR; discriminate). rewrite Rmult_1_r, Rmult_1_l.
+      replace (IZR (2 ^ 53)) with (2 * (IZR (2 ^ 26) * IZR (2 ^ 26))) by (rewrite <- !mult_IZR; reflexivity).
+      assert (0 <= IZR (2 ^ 26)) by (apply IZR_le; lia). nra. }
+    replace (a * a) with (a * INR (n + 3) * u64) by (unfold a; ring). nra. }
+  assert (Ea : a = (INR n + 3) * u64) by (unfold a; rewrite plus_INR; cbn [INR]; ring).
+  assert (Hu3 : 3 * u64 <= a) by (rewrite Ea; pose proof (pos_INR n); nra).
+  split; [|split].
+  - rewrite Ea in *. lra.
+  - rewrite Ea in *. lra.
+  - apply Rle_trans with ((1 + u64) ^ (n + 3)); [apply pow1u_mono; lia|]. lra.
+Qed.
+
+(* the second pass of the two-pass computation: RELATIVE error (n + 4) u on the sum of squared
+   deviations, plus second-order terms from the error of the mean and from underflow *)
+Theorem fp_ssq2_error : forall (M : R) (xs : list R), bpow radix2 (-1022) <= M -> xs <> [] ->
+  Forall (fun x => fmt x /\ Rabs x <= M) xs -> (Z.of_nat (length xs) + 4 <= 2 ^ 26)%Z ->
+  let n := INR (length xs) in
+  Rabs (fp_ssq2 xs - rssq xs) <=
+    (n + 4) * u64 * rssq xs + 2 * n * (((n + 3) * u64 * M) * ((n + 3) * u64 * M)) + 2 * n * eta64.
+Proof.
+  intros M xs HM Hne Hall Hlen n.
+  pose proof u64_pos as Hu. pose proof eta64_pos as Heta.
+  pose proof (fp_mean2_error_simple M xs HM Hne Hall ltac:(lia)) as He. fold n in He.
+  assert (Hfx : Forall fmt xs) by (eapply Forall_impl; [|exact Hall]; intros a [Ha _]; exact Ha).
+  unfold fp_ssq2. set (c := fp_mean2 xs) in *.
+  assert (Fc : fmt c) by (unfold c, fp_mean2; apply fmt_RN).
+  pose proof (fp_ssq_about_error c xs Fc Hfx) as E.
+  destruct (small_count_facts (length xs) Hlen) as [G1 [G2 G3]]. fold n in G1, G2.
+  rewrite rsq_about_shift in E. fold n in E.
+  set (e2 := (c - rmean xs) * (c - rmean xs)) in *.
+  set (B := (n + 3) * u64 * M) in *.
+  assert (HB : e2 <= B * B).
+  { unfold e2. apply Rabs_le_inv in He.
+    assert (0 <= B) by (unfold B; pose proof (pos_INR (length xs)); fold n in H; pose proof (bpow_gt_0 radix2 (-1022)); apply Rmult_le_pos; [apply Rmult_le_pos; lra|lra]).
+    nra. }
+  assert (He2 : 0 <= e2) by (unfold e2; pose proof (Rle_0_sqr (c - rmean xs)) as H; unfold Rsqr in H; exact H).
+  pose proof (rssq_nonneg xs) as Hs0.
+  assert (Hn0 : 0 <= n) by apply pos_INR.
+  set (g := (1 + u64) ^ (length xs + 3) - 1) in *.
+  assert (Hg0 : 0 <= g) by (unfold g; pose proof (pow1u_ge1 (length xs + 3)); lra).
+  replace (fp_ssq_about c xs - rssq xs) with ((fp_ssq_about c xs - (rssq xs + n * e2)) + n * e2) by ring.
+  eapply Rle_trans; [apply Rabs_triang|]. rewrite (Rabs_pos_eq (n * e2)) by (apply Rmult_le_pos; lra).
+  assert (H1 : g * (rssq xs + n * e2) <= (n + 4) * u64 * rssq xs + g * (n * e2)).
+  { replace (g * (rssq xs + n * e2)) with (g * rssq xs + g * (n * e2)) by ring.
+    apply Rplus_le_compat_r. apply Rmult_le_compat_r; lra. }
+  assert (Hne2 : n * e2 <= n * (B * B)) by (apply Rmult_le_compat_l; lra).
+  assert (H2 : g * (n * e2) + n * e2 <= 2 * n * (B * B)).
+  { assert (g <= 1) by lra. assert (0 <= n * e2) by (apply Rmult_le_pos; lra). nra. }
+  assert (H3 : n * (1 + u64) ^ length xs * eta64 <= 2 * n * eta64).
+  { replace (n * (1 + u64) ^ length xs * eta64) with (n * eta64 * (1 + u64) ^ length xs) by ring.
+    replace (2 * n * eta64) with (n * eta64 * 2) by ring. apply Rmult_le_compat_l; [apply Rmult_le_pos; lra|exact G3]. }
+  lra.
+Qed.
+
+(* population variance of a level-1 entry, v_var / count *)
+Theorem fp_var1_error : forall (M : R) (xs : list R), bpow radix2 (-1022) <= M -> xs <> [] ->
+  Forall (fun x => fmt x /\ Rabs x <= M) xs -> (Z.of_nat (length xs) + 4 <= 2 ^ 26)%Z ->
+  let n := INR (length xs) in
+  Rabs (fp_var1 xs - rssq xs / n) <=
+    (n + 6) * u64 * (rssq xs / n) + 3 * (((n + 3) * u64 * M) * ((n + 3) * u64 * M)) + 4 * eta64.
+Proof.
+  intros M xs HM Hne Hall Hlen n.
+  pose proof u64_pos as Hu. pose proof u64_lt as Hu1. pose proof eta64_pos as Heta.
+  pose proof (fp_ssq2_error M xs HM Hne Hall Hlen) as E. cbv zeta in E. fold n in E.
+  destruct (small_count_facts (length xs) Hlen) as [_ [G2 _]]. fold n in G2.
+  assert (HK : 1 <= n).
+  { unfold n. destruct xs as [|y ys]; [contradiction|]. cbn [length]. rewrite S_INR. pose proof (pos_INR (length ys)). lra. }
+  unfold fp_var1. rewrite RN_INR by lia. fold n.
+  destruct (RN_gen (fp_ssq2 xs / n)) as [d [h [D [H E2]]]]. rewrite E2.
+  set (sh := fp_ssq2 xs) in *. set (s := rssq xs) in *. set (B2 := ((n + 3) * u64 * M) * ((n + 3) * u64 * M)) in *.
+  pose proof (rssq_nonneg xs) as Hs0. fold s in Hs0.
+  assert (HB2 : 0 <= B2) by (unfold B2; pose proof (Rle_0_sqr ((n + 3) * u64 * M)) as HH; unfold Rsqr in HH; exact HH).
+  assert (HKi : 0 < / n <= 1) by (split; [apply Rinv_0_lt_compat; lra|rewrite <- Rinv_1; apply Rinv_le_contravar; lra]).
+  replace (sh / n * (1 + d) + h - s / n) with ((sh - s) / n * (1 + d) + d * (s / n) + h) by (field; lra).
+  eapply Rle_trans; [apply Rabs_triang|]. eapply Rle_trans; [apply Rplus_le_compat_r, Rabs_triang|].
+  rewrite !Rabs_mult. pose proof (Rabs_1p d D) as H1d.
+  assert (Hv0 : 0 <= s / n) by (apply Rmult_le_pos; lra).
+  assert (Hq : Rabs ((sh - s) / n) <= (n + 4) * u64 * (s / n) + 2 * B2 + 2 * eta64).
+  { unfold Rdiv at 1. rewrite Rabs_mult, (Rabs_pos_eq (/ n)) by lra.
+    apply Rle_trans with (((n + 4) * u64 * s + 2 * n * B2 + 2 * n * eta64) * / n); [apply Rmult_le_compat_r; lra|].
+    right. field. lra. }
+  assert (H1 : Rabs ((sh - s) / n) * Rabs (1 + d) <= ((n + 4) * u64 * (s / n) + 2 * B2 + 2 * eta64) * (1 + u64)).
+  { apply Rmult_le_compat; try apply Rabs_pos; assumption. }
+  assert (H2 : Rabs d * Rabs (s / n) <= u64 * (s / n)) by (rewrite (Rabs_pos_eq (s / n)) by exact Hv0; apply Rmult_le_compat_r; lra).
+  (* (n+4) u (1+u) + u <= (n+6) u ; 2 (1+u) <= 3 ; 2 (1+u) + 1 <= 4 *)
+  assert (H3 : (n + 4) * u64 * (s / n) * (1 + u64) + u64 * (s / n) <= (n + 6) * u64 * (s / n)).
+  { replace ((n + 4) * u64 * (s / n) * (1 + u64) + u64 * (s / n)) with (((n + 4) * u64 * (1 + u64) + u64) * (s / n)) by ring.
+    apply Rmult_le_compat_r; [exact Hv0|]. nra. }
+  nra.
+Qed.
+
+Theorem fp_var1_error_Q : forall (M : R) (xs : list Q), bpow radix2 (-1022) <= M -> xs <> [] ->
+  Forall (fun x => fmt (Q2R x) /\ Rabs (Q2R x) <= M) xs -> (Z.of_nat (length xs) + 4 <= 2 ^ 26)%Z ->
+  let n := INR (length xs) in
+  Rabs (fp_var1 (map Q2R xs) - Q2R (ssq_of xs / qlen xs)) <=
+    (n + 6) * u64 * Q2R (ssq_of xs / qlen xs) + 3 * (((n + 3) * u64 * M) * ((n + 3) * u64 * M)) + 4 * eta64.
+Proof.
+  intros M xs HM Hne Hall Hlen n.
+  assert (Hl : (0 < Z.of_nat (length xs))%Z) by (destruct xs; [contradiction|cbn [length]; lia]).
+  assert (Eq : Q2R (ssq_of xs / qlen xs) = rssq (map Q2R xs) / INR (length (map Q2R xs))).
+  { rewrite Q2R_div.
+    - rewrite Q2R_ssq_of by exact Hne. unfold qlen. rewrite Q2R_inject_Z, <- INR_IZR_INZ, map_length. reflexivity.
+    - unfold qlen. intro H. unfold Qeq, inject_Z in H. cbn [Qnum Qden] in H. lia. }
+  rewrite Eq. unfold n. replace (length xs) with (length (map Q2R xs)) by apply map_length.
+  apply fp_var1_error; try assumption.
+  - destruct xs; [contradiction|discriminate].
+  - apply Forall_map. exact Hall.
+  - rewrite map_length. exact Hlen.
+Qed.
